@@ -222,6 +222,27 @@ func genCrashScript(r *rand.Rand, id string, nops int) Script {
 	s.Alphabet = pick(r, "plain", "adversarial", "binary")
 	vid := 0
 	flP := pick(r, 0.2, 0.5, 0.8)
+	if r.Intn(4) == 0 {
+		// backlog: nobody releases the flusher, so Close and the crash points around it meet queued
+		// memtables and a non-empty active memtable that all hold versions of the same few keys
+		s.NKeys = 2
+		s.Cfg.MemtableByteThreshold = pick(r, 150, 250, 400)
+		s.Cfg.ImmutableBuffer = pick(r, 1, 2, 3)
+		for i := 0; i < 5+r.Intn(6); i++ {
+			vid++
+			st := Step{Op: "txn", Puts: [][2]int{{1 + r.Intn(2), vid}}}
+			if r.Intn(2) == 0 {
+				vid++
+				st.Puts = append(st.Puts, [2]int{1 + (st.Puts[0][0] % 2), vid})
+			}
+			s.Steps = append(s.Steps, st)
+			if r.Intn(5) == 0 {
+				s.Steps = append(s.Steps, Step{Op: "reopen"})
+			}
+		}
+		s.Steps = append(s.Steps, Step{Op: "reopen"}, Step{Op: "idle"})
+		return s
+	}
 	for i := 0; i < nops; i++ {
 		for r.Float64() < flP {
 			s.Steps = append(s.Steps, Step{Op: "fl", N: 1})
